@@ -36,13 +36,16 @@ enum COp {
     Query(String),
     SaveExt(String, u64),
     RemoveExt(String),
+    /// the synchronous setter (`set_extension`): takes no operation lease, lands in memory at
+    /// once and is persisted by the next flush / close
+    SetExt(String, u64),
     Flush,
     Compact,
 }
 
 impl COp {
     fn is_mutation(&self) -> bool {
-        matches!(self, COp::Add(_) | COp::Update(..) | COp::Remove(_) | COp::SaveExt(..) | COp::RemoveExt(_))
+        matches!(self, COp::Add(_) | COp::Update(..) | COp::Remove(_) | COp::SaveExt(..) | COp::RemoveExt(_) | COp::SetExt(..))
     }
     fn brief(&self) -> String {
         match self {
@@ -60,6 +63,7 @@ impl COp {
             COp::Query(_) => "query",
             COp::SaveExt(..) => "save_extension",
             COp::RemoveExt(_) => "remove_extension",
+            COp::SetExt(..) => "set_extension",
             COp::Flush => "flush",
             COp::Compact => "compact",
         }
@@ -100,7 +104,7 @@ struct Config {
     label: String,
 }
 
-fn gen_config(rng: &mut Rng, stripe: bool) -> Config {
+fn gen_config(rng: &mut Rng, stripe: bool, ext_heavy: bool) -> Config {
     let cfg = Cfg { cache: rng.chance(2, 3), compress: *rng.pick(&[0, 3]), bucket: *rng.pick(&[64usize, 1 << 20]) };
     let n_initial = if stripe { 130 } else { 4 };
     let n = 2 + rng.usize(3);
@@ -110,7 +114,8 @@ fn gen_config(rng: &mut Rng, stripe: bool) -> Config {
     for _ in 0..n {
         tag += 1;
         let id = *rng.pick(&hot);
-        let op = match rng.weighted(&[18, 30, 16, 12, 4, 5, 3, 8, 4]) {
+        let w: [u32; 10] = if ext_heavy { [3, 6, 3, 0, 0, 26, 16, 18, 2, 26] } else { [18, 30, 16, 12, 4, 5, 3, 8, 6, 3] };
+        let op = match rng.weighted(&w) {
             0 => {
                 let mut d = gen_doc(rng, 6);
                 d.uname = format!("new{tag}-{}", rng.below(2)); // two adds may collide on purpose
@@ -136,7 +141,8 @@ fn gen_config(rng: &mut Rng, stripe: bool) -> Config {
             5 => COp::SaveExt(format!("k{}", rng.below(2)), 100 + tag),
             6 => COp::RemoveExt(format!("k{}", rng.below(2))),
             7 => COp::Flush,
-            _ => COp::Compact,
+            8 => COp::Compact,
+            _ => COp::SetExt(format!("k{}", rng.below(2)), 200 + tag),
         };
         ops.push(op);
     }
@@ -145,7 +151,7 @@ fn gen_config(rng: &mut Rng, stripe: bool) -> Config {
     // the read-then-act window (cache fill after a fetch, read-modify-write) needs a suspension
     // point between a read's response and its consumer; always on when a get is in the mix
     let post_reads = ops.iter().any(|o| matches!(o, COp::Get(_))) || rng.chance(1, 3);
-    Config { cfg, post_reads, n_initial, label: format!("{}{}{}", if stripe { "stripe:" } else { "" }, if post_reads { "postread:" } else { "" }, kinds.join("+")), ops }
+    Config { cfg, post_reads, n_initial, label: format!("{}{}{}{}", if stripe { "stripe:" } else { "" }, if ext_heavy { "ext:" } else { "" }, if post_reads { "postread:" } else { "" }, kinds.join("+")), ops }
 }
 
 struct Outcome {
@@ -158,7 +164,7 @@ struct Outcome {
     initial: Model,
 }
 
-async fn run_schedule(c: &Config, chooser: &mut dyn Chooser, st: &mut Stats) -> Option<(Outcome, Arc<anda_db::collection::Collection>)> {
+async fn run_schedule(c: &Config, chooser: &mut dyn Chooser, st: &mut Stats) -> Option<(Outcome, Arc<anda_db::collection::Collection>, RecStore)> {
     let store = RecStore::new();
     store.set_record_reads(false);
     let mut d = match Driver::start(Arc::new(store.clone()), c.cfg, IndexSet::ALL).await {
@@ -224,6 +230,10 @@ async fn run_schedule(c: &Config, chooser: &mut dyn Chooser, st: &mut Stats) -> 
                     Ok(v) => CRes::Ext(v.and_then(|v| match v { Fv::U64(x) => Some(x), _ => None })),
                     Err(e) => CRes::Err(format!("{e:?}")),
                 },
+                COp::SetExt(k, v) => {
+                    coll.set_extension(k, Fv::U64(v));
+                    CRes::Done
+                }
                 COp::Flush => coll.flush(anda_db::unix_ms()).await.map(|_| CRes::Done).unwrap_or_else(|e| CRes::Err(format!("{e:?}"))),
                 COp::Compact => coll.compact_btree_index(&["uname"]).await.map(|_| CRes::Done).unwrap_or_else(|e| CRes::Err(format!("{e:?}"))),
             }
@@ -297,7 +307,7 @@ async fn run_schedule(c: &Config, chooser: &mut dyn Chooser, st: &mut Stats) -> 
             Err(e) => snapshots.push((pos, Err(e))),
         }
     }
-    Some((Outcome { results, call, ret, trace, snapshots, initial }, coll))
+    Some((Outcome { results, call, ret, trace, snapshots, initial }, coll, store))
 }
 
 /// Applies mutation `i` to `m` in the sequential model; None when the recorded result cannot be
@@ -339,7 +349,7 @@ fn apply_seq(m: &mut Model, handed: &mut BTreeSet<u64>, op: &COp, res: &CRes) ->
             Some(())
         }
         (COp::Remove(id), CRes::Removed(None)) => (!m.docs.contains_key(id)).then_some(()),
-        (COp::SaveExt(k, v), CRes::Done) => {
+        (COp::SaveExt(k, v), CRes::Done) | (COp::SetExt(k, v), CRes::Done) => {
             m.ext.insert(k.clone(), *v);
             Some(())
         }
@@ -395,7 +405,7 @@ fn linearizations(c: &Config, o: &Outcome, extra: &[(usize, usize)], limit: usiz
     out
 }
 
-async fn judge(c: &Config, o: &Outcome, coll: &anda_db::collection::Collection, mode: &str, st: &mut Stats) -> bool {
+async fn judge(c: &Config, o: &Outcome, coll: &anda_db::collection::Collection, store: &RecStore, mode: &str, st: &mut Stats) -> bool {
     let ctx = || {
         json!({"mode": mode, "cfg": format!("{:?}", c.cfg), "schedule": o.trace,
                "history": (0..c.ops.len()).map(|i| format!("t{i} [{}..{}] {} -> {}", o.call[i], o.ret[i], c.ops[i].brief(), { let s = format!("{:?}", o.results[i]); if s.len() > 300 { format!("{}..", &s[..300]) } else { s } })).collect::<Vec<_>>()})
@@ -431,7 +441,18 @@ async fn judge(c: &Config, o: &Outcome, coll: &anda_db::collection::Collection, 
         }
         m
     };
-    let Some(fin) = finals.iter().find(|m| m.docs == live) else {
+    let live_ext: BTreeMap<String, u64> = ["k0", "k1"].iter().filter_map(|k| coll.get_extension_as::<u64>(k).map(|v| (k.to_string(), v))).collect();
+    let Some(fin) = finals.iter().find(|m| m.docs == live && m.ext.iter().filter(|(k, _)| k.as_str() == "k0" || k.as_str() == "k1").map(|(k, v)| (k.clone(), *v)).collect::<BTreeMap<String, u64>>() == live_ext).or_else(|| {
+        // documents match some order but the extension map does not: report that precisely
+        if finals.iter().any(|m| m.docs == live) {
+            st.violation("C05/final_extensions_match_no_valid_order", json!({"live_extensions": format!("{live_ext:?}"),
+                "expected_one_of": finals.iter().map(|m| format!("{:?}", m.ext)).collect::<Vec<_>>(), "context": ctx()}));
+        }
+        None
+    }) else {
+        if finals.iter().any(|m| m.docs == live) {
+            return false;
+        }
         st.violation("C05/final_state_matches_no_valid_order", json!({"live_documents": format!("{live:?}"), "expected_one_of": finals.iter().map(|m| format!("{:?}", m.docs)).collect::<Vec<_>>(), "context": ctx()}));
         return false;
     };
@@ -490,12 +511,56 @@ async fn judge(c: &Config, o: &Outcome, coll: &anda_db::collection::Collection, 
             }
         }
     }
+    // 5. nothing lost: what the live handle shows after every call returned is what a flush +
+    //    clean close makes durable (documents and extensions), for sets with extension writers
+    if c.ops.iter().any(|o| matches!(o, COp::SaveExt(..) | COp::RemoveExt(_) | COp::SetExt(..))) {
+        st.count("oracle_durable_after_flush_and_close");
+        if let Err(e) = coll.flush(anda_db::unix_ms()).await {
+            st.violation("C05/unexpected_error/final_flush", json!({"error": format!("{e:?}"), "context": ctx()}));
+            return false;
+        }
+        if let Err(e) = coll.close().await {
+            st.violation("C05/unexpected_error/final_close", json!({"error": format!("{e:?}"), "context": ctx()}));
+            return false;
+        }
+        let snap = store.snapshot().await;
+        let r = async {
+            let db = connect(snap.clone(), &c.cfg).await.map_err(|e| format!("connect: {e:?}"))?;
+            let col = open_coll(&db, IndexSet::ALL).await.map_err(|e| format!("open: {e:?}"))?;
+            let mut docs = BTreeMap::new();
+            for id in col.ids() {
+                docs.insert(id, col.get_as::<FDoc>(id).await.map_err(|e| format!("get({id}): {e:?}"))?);
+            }
+            let ext: BTreeMap<String, u64> = ["k0", "k1"].iter().filter_map(|k| col.get_extension_as::<u64>(k).map(|v| (k.to_string(), v))).collect();
+            Ok::<_, String>((docs, ext))
+        }
+        .await;
+        match r {
+            Err(e) => {
+                st.violation("C05/reopen_after_clean_close_failed", json!({"error": e, "context": ctx()}));
+                return false;
+            }
+            Ok((docs, ext)) => {
+                if docs != live {
+                    st.violation("C05/documents_lost_or_changed_by_clean_close", json!({"live": format!("{live:?}"), "reopened": format!("{docs:?}"), "context": ctx()}));
+                    return false;
+                }
+                if ext != live_ext {
+                    st.violation("C05/extension_lost_or_changed_by_clean_close", json!({"live": format!("{live_ext:?}"), "reopened": format!("{ext:?}"), "context": ctx()}));
+                    return false;
+                }
+            }
+        }
+    }
     true
 }
 
 fn case(case: u64, rng: &mut Rng, st: &mut Stats, budget: u64) {
     let stripe = case % 8 == 7;
-    let c = gen_config(rng, stripe);
+    // one configuration in four is dominated by extension writers (save / remove / the synchronous
+    // setter) racing each other and a flush: they share one metadata object and its version
+    let ext_heavy = case % 4 == 2;
+    let c = gen_config(rng, stripe, ext_heavy);
     let budget = if stripe { (budget / 6).max(10) } else { budget };
     block_on(async {
         let mut dfs = DfsChooser::new();
@@ -503,7 +568,7 @@ fn case(case: u64, rng: &mut Rng, st: &mut Stats, budget: u64) {
         let mut exhausted = false;
         loop {
             dfs.begin_run();
-            let Some((o, coll)) = run_schedule(&c, &mut dfs, st).await else { return };
+            let Some((o, coll, store)) = run_schedule(&c, &mut dfs, st).await else { return };
             runs += 1;
             st.eval();
             st.count("schedules_run");
@@ -511,7 +576,7 @@ fn case(case: u64, rng: &mut Rng, st: &mut Stats, budget: u64) {
             st.max("max_schedule_len", o.trace.len() as u64);
             // polls that ended at a lock wait (the task was polled again later without having
             // passed a backend call) show that gate / doc-lock windows were actually hit
-            if !judge(&c, &o, &coll, "S-enum", st).await {
+            if !judge(&c, &o, &coll, &store, "S-enum", st).await {
                 return;
             }
             if !dfs.next_run() {
@@ -526,16 +591,19 @@ fn case(case: u64, rng: &mut Rng, st: &mut Stats, budget: u64) {
         if !exhausted {
             let mut rc = RandChooser(rng.fork());
             for _ in 0..budget / 2 {
-                let Some((o, coll)) = run_schedule(&c, &mut rc, st).await else { return };
+                let Some((o, coll, store)) = run_schedule(&c, &mut rc, st).await else { return };
                 st.eval();
                 st.count("schedules_run");
                 st.set("distinct_schedules", vcore::hash_debug(&o.trace) ^ case.wrapping_mul(0x9e3779b97f4a7c15));
-                if !judge(&c, &o, &coll, "S-rand", st).await {
+                if !judge(&c, &o, &coll, &store, "S-rand", st).await {
                     return;
                 }
             }
         }
         st.count(&format!("config:{}", if stripe { "stripe" } else { "plain" }));
+        if ext_heavy {
+            st.count("config:extension_heavy");
+        }
         if c.post_reads {
             st.count("config:post_read_gate");
         }
@@ -673,6 +741,9 @@ fn main() {
     run.floor("oracle_flush_snapshots", 200);
     run.floor("config:stripe", 5);
     run.floor("config:post_read_gate", 10);
+    run.floor("config:extension_heavy", 10);
+    run.floor("oracle_durable_after_flush_and_close", 500);
+    run.floor("cop:set_extension", 10);
     run.floor_set("configurations", 30);
     for k in ["add", "update", "remove", "get", "flush", "save_extension", "compact"] {
         run.floor(&format!("cop:{k}"), 10);
